@@ -379,7 +379,7 @@ class C14(Prop):
     PARTIAL = {}
     RULE = ("case kinds: coll (rows from/to/cycles or range/mean; derived quantities; scale/shift by scalar, numpy scalar, 0-d array, one value per cycle as ndarray / list, or Series; source collective and operand unchanged afterwards, the same call twice on the same object gives the same result), "
             "hist (range_histogram / histogram / recorder histogram with edges, class count as int / numpy integer / 0-d array, [ex, ey] / [nx, ny], IntervalIndex/IntervalArray right- or left-closed, intervals from two edge arrays whose shared edges differ in the last bit "
-            "(iv2: must be ACCEPTED as a gap-free binning, /repo 4183ee2), interval bins with real gaps / overlaps (iv_gap / iv_overlap: must be "
+            "(iv2: must be ACCEPTED as a gap-free binning, /repo 4183ee2; a shared edge different from 0.0 is moved by one ulp, a shared edge AT 0.0 - inserted into the edges of about half of the cases that cross zero - is replaced by rounding noise of 2**-54 of the larger neighbour, which the code accepts since /repo 125ac37, adjacency judged relative to the class width), interval bins with real gaps / overlaps (iv_gap / iv_overlap: must be "
             "rejected with ValueError, /repo 5cb9f77), one class, zero-width class, values exactly on edges or one ulp "
             "beside them, extra index levels in any order, unnamed level, axis = any level or None, recording in chunks), lh (LoadHistogram "
             "range/mean and from/to matrices: mids / left / right class location, scale, shift by scalar or Series, R, amplitude_histogram, "
@@ -419,9 +419,11 @@ class C14(Prop):
         "middle binning B strictly increasing, and either B covers the source and refines it (rebin_compose_of_refines, "
         "rebin_compose_of_breaks_subset) or every break of the last binning is a break of B (rebin_compose_of_target_coarsens).  Reading "
         "'and composes' as 'totals compose' is an INTERPRETATION of the property text, not a finding against the code",
-        "two fixed classes recorded in KNOWN_FINDINGS.jsonl - combine-unnamed-levels (/repo cdc99ee, regression of d0db0a6) and "
-        "interval-bins-last-bit (/repo 4183ee2, regression of 5cb9f77) - are labels of the record only: no clause of this oracle emits them.  "
-        "Their inputs are generated (combine2d with unnamed / twice-named levels; hist bins `iv2`), but a recurrence would be reported under the "
+        "three fixed classes recorded in KNOWN_FINDINGS.jsonl - combine-unnamed-levels (/repo cdc99ee, regression of d0db0a6), "
+        "interval-bins-last-bit (/repo 4183ee2, regression of 5cb9f77) and interval-bins-edge-at-zero (/repo 125ac37, leftover of 4183ee2) - are "
+        "labels of the record only: no clause of this oracle emits them.  "
+        "Their inputs are generated (combine2d with unnamed / twice-named levels; hist bins `iv2` with shared edges moved by one ulp resp. with an "
+        "edge at zero replaced by rounding noise of the neighbours' size - generated only, no corpus case holds it), but a recurrence would be reported under the "
         "generic classes combine-error (combine_histogram raises) and histogram-error (histogram / range_histogram raises), i.e. as a NEW "
         "failure that the recorded classes do not cover",
     ]
@@ -615,7 +617,9 @@ class C14(Prop):
             if 0.0 not in left[1:-1] and left[0] < 0.0 < left[-1] and rng.random() < 0.5:
                 left = sorted(set(left + [0.0]))            # mean / from-to classes normally cross zero
                 eff = list(left)
-            for j in range(1, len(left) - 1):          # the right bound of class j-1 is one ulp beside the left bound of class j
+            # the right bound of class j-1 is one ulp beside the left bound of class j; for an edge at 0.0 (ulp = 5e-324 would say nothing)
+            # the right bound is 2**-54 of the larger neighbour instead, see below
+            for j in range(1, len(left) - 1):
                 if left[j] != 0.0 and rng.random() < 0.7:
                     eff[j] = ulp(left[j], rng.random() < 0.5)
                 elif left[j] == 0.0 and rng.random() < 0.8:
